@@ -28,11 +28,11 @@ C16_BOUNDED = [H + 'cat::v_concat_heap_receiver', H + 'cat::v_concat_inline_heap
 
 COMMON_ASSUMPTIONS = [
     'Verus 0.2026.09.13, its bundled Z3 and rustc 1.98.1 are correct',
-    'transformations T1-T10 of tools/extract.py preserve behaviour (T3 is the language definition of `for`; T8 binds a '
+    'transformations T1-T11 of tools/extract.py preserve behaviour (T3 is the language definition of `for`; T8 binds a '
     'closure parameter pattern with a `let` inside the closure body and names wildcard parameters; T2 drops trace!/debug! '
     'logging statements only; T7 names the return value; T9 turns format! into an uninterpreted function of its literal and '
     'arguments and anyhow! into an opaque error (message text not modelled); T10 writes `&a - &b` as the Sub::sub call it '
-    'stands for); provenance check enforced every run; the dropped text is listed in each unit\'s meta.json',
+    'stands for; T11 emits the method of `impl Display for Sodg` as an inherent method); provenance check enforced every run; the dropped text is listed in each unit\'s meta.json',
     'a callee taken "by contract only" (external_body with the contract spliced from the owning unit\'s overlay) is proved in '
     'the owning unit',
     'machine arithmetic is NOT idealised: usize operations in exec code carry overflow obligations',
@@ -63,10 +63,6 @@ NOT_APPLICABLE = {
            'String: FromIterator<char>, str::parse::<usize>, starts_with - and Display is format!/collect over chars; a contract '
            'would have to axiomatise the string functions, i.e. assume what is to be shown; Kani timed out (15 min) on a '
            'one-character input',
-    'C20': 'inspect_v() recurses inside a `for_each` closure that captures `&mut seen` and `&mut lines` (Verus has no closures '
-           'capturing mutable state), Debug::fmt is a trait method (no `requires`, so the well-formedness of the graph cannot be '
-           'assumed) writing through core::fmt::Formatter; only v_print() is within reach, which is a third of the property; '
-           'Kani cannot hold a Sodg',
 }
 
 GRAPH_TRUSTED = [
@@ -254,9 +250,11 @@ PROPS = {
                    'element per PRESENT vertex and none for absent ids, in ascending id order, one <e> per edge with its '
                    'label and target in label order, a <data> element iff the vertex has data - and the lemma that two '
                    'graphs with the same present ids, edge sets, data and has-data status give the same document however '
-                   'they were built. For to_dot() only the structure is decided (the text of every line is built with '
-                   'format!, which is opaque): header + one line per present vertex + one line per edge of a present '
-                   'vertex + closing line. Every loop terminates.',
+                   'they were built. For to_dot(): header + one line per present vertex + one line per edge of a present '
+                   'vertex in label order + closing line; the node line is format!(literal, id, colour marker iff data, '
+                   'data text iff data), the edge line format!(literal, source id, target id, label, two styling fragments '
+                   'left open) - format! being an uninterpreted function of its literal and the Display texts of its '
+                   'arguments (T9). Every loop terminates.',
         level_note='Trusted: Verus/Z3; contracts of the xml-builder crate (XMLElement::new/add_attribute/add_child/add_text, '
                    'XML::set_root_element/generate = an uninterpreted function of the element tree), of itertools '
                    'sorted_by_key (stable sort; identity when the keys already ascend; sorting by label is a function of the '
@@ -272,12 +270,12 @@ PROPS = {
             'and on the micromap pair iterator (sorted_pairs: a permutation; canonical when keys are distinct)',
             'ToString for usize / Label, str::replace, std::str::from_utf8, Hex::print: functions of their arguments '
             '(dec_text, label_text, replaced, utf8_text, hex_text: uninterpreted)',
-            '<[T]>::join, format! (T9): opaque (DOT text)'],
+            '<[T]>::join: opaque; format! (T9): an uninterpreted function of its literal and the Display texts of its arguments'],
         explanation='to_xml-text-is-a-function-of-the-present-graph (postcondition), the loop obligations '
                     '(vertices-iterated-are-the-present-ones, one-v-per-present-vertex-ascending, one-e-per-edge-in-label-order, '
                     'v-element, document), to_dot-line-count; lemmas lemma_xml_doc_determined, lemma_v_nodes_count.',
         not_covered=['the characters of the output (XML escaping, the hex text of data, the text of every DOT line)',
-                     'to_dot(): which line is which (all lines are format! results); only their number is decided'],
+                     'to_dot(): the two styling fragments of an edge line (colour of rho/sigma edges, pi style)'],
         assumptions=['the graph is well-formed (wf)'],
     ),
     'C19': graph_prop(
@@ -291,6 +289,50 @@ PROPS = {
         ['merge() and slice() (hash containers) are not covered', 'next_id() body: see C05'],
         extra=dict(units=['U_ops', 'U_model', 'U_slice'], classify=classify_config_sensitive(SENSITIVE_SIZE + SENSITIVE_NONDET))),
 
+    'C20': dict(
+        units=['U_debug', 'U_display', 'U_hex'], level='proof',
+        technique='contract-based deductive verification (Verus) of the real Debug::fmt, Display::fmt and v_print() of '
+                  'src/debug.rs - PARTIAL: the text written is a function of the abstract graph (one line per present vertex '
+                  'in ascending id order with its id, one attribute per edge with label and target, its data iff it has data; '
+                  'v_print: id, data marker iff data, exactly the labels); format!/join/Formatter by trusted contracts. '
+                  'inspect() (a third of the property) is out of reach and NOT decided',
+        level_text='Unbounded proof on the extracted real Debug::fmt (as the trait method it is: no precondition; the graph '
+                   'invariant is the premise of the postcondition), Display::fmt (T11: emitted as an inherent method; what '
+                   'std\'s `impl Debug for &T` forwards to is a trusted contract) and v_print(): when Debug::fmt returns Ok, '
+                   'the text appended to the formatter is join(lines, "\\n") where the lines start with exactly one line per '
+                   'PRESENT vertex, ascending by id, each format!(literal, id, join(attributes, ", ")) with one attribute '
+                   'format!(literal, label, target) per edge in stored order followed by the Display text of the data iff the '
+                   'vertex has data; the group lines that follow are left open. Display writes what Debug writes. v_print(v) '
+                   'returns format!(literal, v, marker-iff-data, join(labels, ", ")) with exactly v\'s labels in stored order. '
+                   'Both loops of Debug::fmt terminate. Lemmas: one line per present vertex and none for an absent id; one '
+                   'attribute per edge plus one iff data.',
+        level_note='PARTIAL: inspect()/inspect_v() - "terminates on every graph, cyclic or not, and lists every edge of every '
+                   'reachable vertex exactly once" - is NOT decided: inspect_v() recurses inside a `for_each` closure that '
+                   'captures `&mut seen` and `&mut lines` (Verus has no closures capturing mutable state; Kani cannot hold a '
+                   'Sodg). Trusted: Verus/Z3; format! as an uninterpreted function of its literal and of the Display texts of '
+                   'its arguments (T9; format!("{}", x) is the Display text of x), <[String]>::join as an uninterpreted '
+                   'function of parts and separator, Formatter::write_str appends, Display of Hex is print() (proved a '
+                   'function of the bytes in U_hex), std `impl Debug for &T` forwards to T. NOT decided: the concrete characters.',
+        design_ref='DESIGN.md §4 C20',
+        trusted_base=GRAPH_TRUSTED + [
+            'std `map(f).collect::<Vec<_>>()` on micromap::Iter / microstack::IntoIter (inherent shim methods: f(item) for every '
+            'item in stored order)',
+            'emap::Map::iter() in lax mode: the contract is an implication (all slots filled ==> ...), because a trait method '
+            'cannot state a precondition',
+            'format! (T9): fmt_text(literal, display texts), uninterpreted; axiom_fmt_identity: format!("{}", x) is the Display '
+            'text of x; Display text of usize / Label / Hex: dec_text / label_text / hex_text (uninterpreted)',
+            '<[String]>::join(&str): joined(texts, separator), uninterpreted; Formatter::write_str appends its argument',
+            'U_display: `impl Debug for &T` forwards to T\'s Debug::fmt (assume_specification + axiom_dbg_sodg: for Sodg<N> '
+            'that is the contract proved in U_debug); axiom_fmt_req_sodg (vstd\'s marker that formatting a Sodg has no precondition)'],
+        explanation='debug-lists-exactly-the-present-vertices-with-their-edges-and-data (postcondition), the loop obligations '
+                    '(one-line-per-present-vertex-in-id-order, vertex-line-carries-id-edges-and-data, group-lines-come-after, '
+                    'termination of both loops), display-writes-what-debug-writes, '
+                    'v_print-shows-the-marker-iff-data-and-exactly-the-labels; lemmas L20-*.',
+        not_covered=['inspect() / inspect_v(): termination on cyclic graphs and "every edge of every reachable vertex exactly once"',
+                     'the group lines (b..: {..}) of Debug: only that they come after the vertex lines',
+                     'the characters of the output (what format! does with its literal)'],
+        assumptions=['the graph is well-formed (wf); v_print: v below the capacity'],
+    ),
     'C11': dict(
         units=['U_mergelog', 'U_ops'], level='proof',
         technique='contract-based deductive verification (Verus) of the real merge()/merge_rec() against a ghost transcript of the '
